@@ -130,6 +130,15 @@ MUTATIONS = [
     ("tlexport/main.py", '        if session.matches_session_dgram(packet.ip_src, packet.ip_dst, packet.sport, packet.dport):\n            session.handle_packet(packet, dcid, quic_version)\n            return\n', '        if session.matches_session_dgram(packet.ip_src, packet.ip_dst, packet.sport, packet.dport):\n            session.handle_packet(packet, dcid, quic_version)\n            continue\n', 'main.quic_loop: 4-tuple match goes on to the next session'),
     ("tlexport/main.py", '        quic_sessions.append(new_session)\n        new_session.handle_packet(packet, dcid, quic_version)', '        quic_sessions.append(new_session)', 'main.quic_loop: first packet of a new session not processed'),
     ("tlexport/main.py", '                    candidates = session.server_cids\n                else:\n                    candidates = session.client_cids', '                    candidates = session.client_cids\n                else:\n                    candidates = session.server_cids', 'main.quic_loop: sender-side CIDs as candidates (fragment)'),
+    # group TlsKeys: session.py key selection
+    ("tlexport/session.py", '            if secret.client_random.lower() == self.client_random.hex().lower():', '            if secret.client_random == self.client_random.hex().lower():', 'find_session_secrets: upper-case client randoms of the key log no longer match'),
+    ("tlexport/session.py", '                    is_handshake_secret += 2\n                secrets.append(secret)', '                    is_handshake_secret += 2\n                    secrets.append(secret)', 'find_session_secrets: only the server handshake secret is kept'),
+    ("tlexport/session.py", '                secrets.append(secret)\n\n        if is_handshake_secret < 2', '                secrets.insert(0, secret)\n\n        if is_handshake_secret < 2', 'find_session_secrets: reverse key-log order'),
+    ("tlexport/session.py", 'secret_list = [secret for secret in secret_list if secret.label in ("CLIENT_RANDOM", "RSA")]', 'secret_list = [secret for secret in secret_list if secret.label in ("CLIENT_RANDOM",)]', 'generate_keys select: RSA lines dropped'),
+    ("tlexport/session.py", '        if tls_version != TlsVersion.TLS13:\n            # up to TLS 1.2', '        if tls_version == TlsVersion.TLS12:\n            # up to TLS 1.2', 'generate_keys select: the master-secret filter for TLS 1.2 only'),
+    ("tlexport/session.py", '                          f"Client Port: {self.client_port}")\n            self.can_decrypt = False\n            return\n\n        try:', '                          f"Client Port: {self.client_port}")\n            return\n\n        try:', 'generate_keys select: can_decrypt stays set without secrets'),
+    ("tlexport/session.py", '        elif algo in [TripleDES, IDEA]:\n            block_size = 64', '        elif algo in [TripleDES]:\n            block_size = 64', 'generate_keys block_size: IDEA without a block size'),
+    ("tlexport/session.py", '        if algo in [AES, AESCCM, AESGCM, Camellia]:\n            block_size = 128', '        if algo in [AES, AESCCM, AESGCM, Camellia]:\n            block_size = 16', 'generate_keys block_size: bytes instead of bits'),
     # group Opts: main.py options
     ("tlexport/main.py", '        i = i.replace(",", "") # if somebody is using a "," as seperator\n', '', 'get_port_map: commas kept'),
     ("tlexport/main.py", '        output_port = int(split[1])', '        output_port = int(split[-1])', 'get_port_map: output port is the last field'),
@@ -270,6 +279,8 @@ MUTATIONS = [
 REWRITES = [
     ("tlexport/decryptor.py", [('        self.get_cipher_type()\n        self.parse_keys(keys)\n', '        self.parse_keys(keys)\n        self.get_cipher_type()\n')], 'Decryptor.__init__: parse_keys before get_cipher_type'),
     ("tlexport/quic/quic_session.py", [('            case b"\\x13\\x01":\n                self.hash_fun = SHA256\n                self.cipher = AESGCM\n                self.key_length = 16\n\n            # TLS_AES_256_GCM_SHA384\n            case b"\\x13\\x02":\n                self.hash_fun = SHA384\n                self.cipher = AESGCM\n                self.key_length = 32\n', '            case b"\\x13\\x02":\n                self.hash_fun = SHA384\n                self.cipher = AESGCM\n                self.key_length = 32\n\n            case b"\\x13\\x01":\n                self.hash_fun = SHA256\n                self.cipher = AESGCM\n                self.key_length = 16\n')], 'set_tls_decryptors: the first two cases in the other order'),
+    ("tlexport/session.py", [('            if secret.client_random.lower() == self.client_random.hex().lower():', '            if self.client_random.hex().lower() == secret.client_random.lower():')], 'find_session_secrets: comparison operands swapped'),
+    ("tlexport/session.py", [('        if len(secret_list) == 0:\n            logging.error(f"Missing Secrets', '        if 0 == len(secret_list):\n            logging.error(f"Missing Secrets')], 'generate_keys select: `0 == len(...)`'),
     ("tlexport/main.py", [('        i = i.replace(",", "") # if somebody is using a "," as seperator\n        split = i.split(":")', '        split = i.replace(",", "").split(":")')], 'get_port_map: comma removal and split in one expression'),
     ("tlexport/main.py", [('        if values:\n            setattr(namespace, self.dest, values)', '        if len(values) != 0:\n            setattr(namespace, self.dest, values)')], 'MapPortsAction: `len(values) != 0` for `values`'),
     ("tlexport/keylog_reader.py", [('    for line in lines:\n        key = get_key_from_line(line)\n        if key is not None:\n            keys.append(key)', '    for line in lines:\n        key = get_key_from_line(line)\n        if key is None:\n            continue\n        keys.append(key)')], 'get_keys_from_string: `continue` on a line that is no key'),
@@ -352,6 +363,8 @@ def group_of(what):
     if fn in ("parse_keys", "Decryptor.__init__"):
         return ["Decrypt2"]
 
+    if fn in ("find_session_secrets", "generate_keys select", "generate_keys block_size"):
+        return ["TlsKeys"]
     if fn in ("get_port_map", "MapPortsAction", "server_ports"):
         return ["Opts"]
     if fn in ("Key", "get_key_from_line", "get_keys_from_string"):
